@@ -81,11 +81,11 @@ struct Args {
 struct Run {
 	Args args;
 	unsigned shard_k = 0, shard_n = 1;
-	long long from = 0, cur_id = 0;
+	long long from = 0, cur_id = 0, case_seq = 0;
 	double deadline = 0;		// absolute unix time, 0 = none
 	char *cur = nullptr;		// mmap'd current-case area
 	size_t cur_sz = 1 << 16;
-	long long evaluations = 0, nontrivial = 0, violations = 0, samples_emitted = 0;
+	long long evaluations = 0, nontrivial = 0, violations = 0, samples_emitted = 0, transitions = 0, traces = -1;
 	std::map<std::string, long long> outcomes, counters;
 	bool single = false;		// case=<...> given: run exactly that case, verbosely
 	std::string single_case;
@@ -165,6 +165,8 @@ struct Run {
 	{
 		Json j; j.str("t", "stat").num("evaluations", evaluations).num("nontrivial", nontrivial)
 			.num("violations", violations).boolean("done", done && !hit_deadline);
+		if (transitions) j.num("transitions", transitions);
+		if (traces >= 0) j.num("traces", traces);
 		std::string o = "{"; bool f = true;
 		for (auto& p : outcomes) { if (!f) o += ','; f = false; o += jesc(p.first) + ":" + std::to_string(p.second); }
 		o += "}"; j.raw("outcomes", o);
